@@ -55,6 +55,9 @@ func goid() string {
 var curProc sync.Map // goroutine id -> procedure being served
 
 func runConc(seed int64, nclients, nops int, size uint64, out string, shape string) int {
+	if shape == "allocretry" && size < 6000 {
+		size = 6000 // room for a file whose background free takes many transactions
+	}
 	f, _ := os.Create(out)
 	defer f.Close()
 	w := bufio.NewWriterSize(f, 1<<20)
@@ -91,6 +94,31 @@ func runConc(seed int64, nclients, nops int, size uint64, out string, shape stri
 		}
 		setup = append(setup, Op{Id: 400, Proc: "restart"})
 	}
+	if shape == "crashshrink" {
+		// the server is stopped the hard way (Nfs.Crash, as the tests of the repository do) while the background
+		// shrinker is still freeing a large file, and started again: the stop must synchronise with the shrinker
+		for _, o := range setup {
+			r.Step(o)
+		}
+		n := uint64(120 * 4096)
+		for round := 0; round < nops; round++ {
+			id := 500 + round*20
+			r.Step(Op{Id: id, Proc: "create", H: "root", Name: fmt.Sprintf("big%d", round)})
+			for k := uint64(0); k < 10; k++ {
+				r.Step(Op{Id: id + 1 + int(k), Proc: "write", H: fmt.Sprintf("@%d", id), Off: k * n, Cnt: n, Stable: 2, Data: DataSpec{Pat: true, Len: n, Seed: k}})
+			}
+			Exec(r.srv, Op{Proc: "remove", Name: fmt.Sprintf("big%d", round)}, r.resolve("root"), nil)
+			if round%2 == 1 {
+				time.Sleep(time.Duration(rng.Intn(300)) * time.Microsecond)
+			}
+			r.srv.Crash()
+			r.srv = nfs.MakeNfs(r.d)
+			Exec(r.srv, Op{Proc: "getattr"}, r.resolve("root"), nil)
+		}
+		r.srv.ShutdownNfs()
+		fmt.Fprintf(w, "M conc-end ok\n")
+		return 0
+	}
 	if shape == "staledir" {
 		// a restart resets the allocator's scan position: the next directory made gets the lowest free number, which
 		// is the number of the directory removed just before
@@ -98,6 +126,22 @@ func runConc(seed int64, nclients, nops int, size uint64, out string, shape stri
 	}
 	for _, o := range setup {
 		r.Step(o)
+	}
+	if shape == "allocretry" {
+		// a large file is removed and the server is stopped the hard way while the background free is still going on;
+		// after the restart the first object created draws the half-freed inode number, and its CREATE gives up its
+		// locks to help finish the free before it starts over - while other clients create the same name
+		n := uint64(120 * 4096)
+		// (outside the recorded history: the file is gone again before the history begins, and the runner would wait
+		// for the background free to finish before it lets the next step run)
+		root := r.resolve("root")
+		big := Exec(r.srv, Op{Proc: "create", Name: "big"}, root, nil)
+		for k := uint64(0); k < 30; k++ {
+			Exec(r.srv, Op{Proc: "write", Off: k * n, Cnt: n, Stable: 2, Data: DataSpec{Pat: true, Len: n, Seed: k}}, big.H, nil)
+		}
+		Exec(r.srv, Op{Proc: "remove", Name: "big"}, root, nil)
+		r.srv.Crash()
+		r.srv = nfs.MakeNfs(r.d)
 	}
 	startB := make(chan struct{})
 	var startOnce sync.Once
@@ -194,6 +238,11 @@ func runConc(seed int64, nclients, nops int, size uint64, out string, shape stri
 			}
 			// (files outside the big directory: a listing would wait for a stalled child's lock)
 			return Op{Id: id, Proc: "getattr", H: files[rg.Intn(len(files))]}
+		case "allocretry":
+			if id%1000 == 100 {
+				return Op{Id: id, Proc: "create", H: "root", Name: "zz"}
+			}
+			return []Op{{Id: id, Proc: "lookup", H: "root", Name: "zz"}, {Id: id, Proc: "readdir", H: "root", Count: 1 << 20}, {Id: id, Proc: "getattr", H: "@1"}}[id%3]
 		case "staledir": // a dead directory handle used by a call that is between giving up and re-taking its locks
 			i := id % 1000
 			switch id / 1000 {
